@@ -580,6 +580,35 @@ def r1_6(ctx):
         ctx.bad("R1.6", fi.module, fi.qual, "self.pending_notifications = [] before selected()", "SELECT/EXAMINE can give the session a fresh view while lines queued for its old view are kept (e.g. when the same mailbox is selected again): the next flush replays a stale EXPUNGE onto the fresh view", fi.node.lineno)
 
 
+def r1_7(ctx):
+    """The message count a session is told (`* n EXISTS`) is the length of the server's message list at that moment:
+    len(self.msg_keys) in the SELECT response; len of the freshly merged key list in the resync - which is what self.msg_keys
+    and self.num_msgs are set to in the same function."""
+    from ..astutil import fstring_parts, merge_consts
+    from .common import pm_of
+
+    p = ctx.p
+    n = 0
+    for fi in p.funcs_in("mbox"):
+        for js in [x for x in body_walk(fi.node) if isinstance(x, ast.JoinedStr)]:
+            parts = merge_consts(fstring_parts(js))
+            if len(parts) >= 3 and isinstance(parts[0], str) and parts[0] == "* " and isinstance(parts[2], str) and parts[2].startswith(" EXISTS"):
+                n += 1
+                ctx.analysed(fi)
+                h = parts[1]
+                okv = norm(h) == "len(self.msg_keys)"
+                if not okv and isinstance(h, ast.Name):
+                    from ..pattern import PM
+                    pm = PM(p, fi, fixed={h.id})  # the hole's own name is not a pattern variable
+                    # num_msgs = len(msg_keys), and the same msg_keys / num_msgs become the mailbox's state
+                    okv = pm.has(f"{h.id} = len(msg_keys)") and pm.has("self.msg_keys.extend(new_msg_keys)") and pm.has(f"self.num_msgs = {h.id}")
+                if okv:
+                    ctx.ok("R1.7", where(fi), f"`* {{{norm(h)}}} EXISTS` announces the length of the message list")
+                else:
+                    ctx.bad("R1.7", fi.module, fi.qual, f"* {{{norm(h, 40)}}} EXISTS", f"the count announced with EXISTS (`{norm(h, 40)}`) is not the length of the server's message list: the session's view has a different size than the mailbox", js.lineno)
+    ctx.floor("R1.7", n, 2, "EXISTS templates")
+
+
 def run(ctx):
     ctx.do(r1_1)
     ctx.do(r1_2)
@@ -587,6 +616,9 @@ def run(ctx):
     ctx.do(r1_4)
     ctx.do(r1_5)
     ctx.do(r1_6)
+    ctx.do(r1_7)
+    from . import c02
+    ctx.do(c02.r2_6)
     # shared necessary conditions decided by sibling modules (reported under this property too)
     from . import c03, c10
     ctx.do(c03.r3_1_2)
